@@ -1114,7 +1114,7 @@ class TrigInfo:
         try:
             if self.state_trigger is not None:
                 self.state_trig_ident = set()
-                if self.state_user_watch:
+                if self.state_user_watch is not None:
                     if isinstance(self.state_user_watch, list):
                         self.state_trig_ident = set(self.state_user_watch)
                     else:
